@@ -155,7 +155,6 @@ def run(rep: core.Report):
     _r10f(rep)
     _r10g(rep)
     _r10h(rep)
-    _r10i(rep)
 
 
 # ---------------------------------------------------------------------------
@@ -582,17 +581,6 @@ def _r10h(rep):
                          f"with pretend_real={pr} and band_indices {'given' if bi else 'None'} the stored frequencies are {'not ' if pr and not all('abs' in g for g in got) else ''}absolute values and {'not ' if bi and not all('select' in g for g in got) else ''}restricted to the selected bands: one option is ignored when the other is used, so imaginary modes of the selected bands drop out of F, S, C_V and the mode count", line=init.lineno)
 
 
-
-def _r10i(rep):
-    """'Compiled and Python paths agree': the arrays handed to the compiled thermal-property kernel have the element
-    type and the C-contiguous layout the kernel indexes (the cross-language table of C13, restricted to this call)."""
-    from rules import c13, c13_abi
-
-    an, tus = c13.analyzer()
-    view = core.KernelView(rep, "R10i", only_compiled=False, keep=lambda f, q, c: "thermal_properties" in c or "thermal_properties" in q)
-    c13_abi.run(view, an, tus)
-    if not any(r.startswith("R10i.") for r in rep.rules):
-        raise AnalysisError("R10i: the call of the compiled thermal-property kernel produced no instance in the cross-language table")
 
 
 def _r10f(rep):
